@@ -85,7 +85,46 @@ def grammar_specs(gen_src):
     return s, skips, eois
 
 
-def build(gen_src, sidecars, annotate=None, report=None, user_side=None):
+def _shard_lib(text, shard):
+    """Without `skel` the lemma library is taken as proved (another run proves it)."""
+    if shard is None or shard[2]:
+        return text
+    return re.sub(r"(?m)^(\s*)(pub (?:broadcast )?proof fn )", r"\1#[verifier::external_body] \2", text)
+
+
+def _shard_fns(ix, ed, shard, report):
+    """shard = (i, n, skel): verify the rule functions whose ordinal is congruent to i mod n and,
+    if skel, the runtime skeleton and the lemma library.  Every other function keeps its contract and gets
+    external_body here; its body is verified in exactly one other shard."""
+    if shard is None:
+        return
+    i, n, skel = shard
+    st = ix.st
+    ext = set(report.get("extraction", {}).get("E8_external_rule_fns", []))
+    k = 0
+    mine = []
+    for f in ix.fns:
+        if f.i_body is None or f.parent is not None:
+            continue
+        if f.owner is not None and f.owner.startswith("trait "):
+            continue
+        head = ix.text(f.i_attr, f.i_fn)
+        if "verifier::external" in head:
+            continue
+        if f.owner == "Parser" and f.name.startswith("rule_"):
+            if f.key in ext:
+                continue
+            if k % n == i:
+                mine.append(f.name)
+            else:
+                ed.insert(st[f.i_attr].s, "#[verifier::external_body] ")
+            k += 1
+        elif not skel:
+            ed.insert(st[f.i_attr].s, "#[verifier::external_body] ")
+    report["shard"] = {"index": i, "of": n, "skeleton": skel, "rule_fns": mine}
+
+
+def build(gen_src, sidecars, annotate=None, report=None, user_side=None, shard=None):
     """gen_src: emitted generated.rs text.  sidecars: list of side-car texts.
     annotate: function(text, report) -> text applied after the skeleton merge
     (layer G annotator).  user_side: (token_enum_text, callbacks_text) to use the
@@ -107,6 +146,7 @@ def build(gen_src, sidecars, annotate=None, report=None, user_side=None):
     report["alphabet"] = token_names(gen_src)
     if annotate is not None:
         annotate(ix, ed, report)
+    _shard_fns(ix, ed, shard, report)
     text = ed.apply()
     if user_side is None:
         toks = token_names(gen_src)
@@ -118,9 +158,9 @@ def build(gen_src, sidecars, annotate=None, report=None, user_side=None):
     parts = ["use vstd::prelude::*;\nuse vstd::std_specs::iter::IteratorSpec;\nverus! {\nglobal size_of usize == 8;\n",
              token_enum,
              gspec,
-             read(os.path.join(CONTRACTS, "model.vlib")),
-             read(os.path.join(CONTRACTS, "specs.vlib")),
-             read(os.path.join(CONTRACTS, "lemmas.vlib")),
+             _shard_lib(read(os.path.join(CONTRACTS, "model.vlib")), shard),
+             _shard_lib(read(os.path.join(CONTRACTS, "specs.vlib")), shard),
+             _shard_lib(read(os.path.join(CONTRACTS, "lemmas.vlib")), shard),
              "// ===== extracted from the emitted parser (E1-E9) with contracts merged =====\n",
              text,
              "\n// ===== user side =====\n",
